@@ -308,3 +308,5 @@ _quick("C17", "C17_relock_long", "a hold with Rcount 3 parked in the long-expiry
 _quick("C01", "C01_slowmap", "a held key whose manager lives in the ordinary key map (hold parked in the long-expiry table; or two keys sharing one of 4 fast slots, the first released and optionally swept); a second request with Count 0 or 1 and Timeout 0: refused, holds unchanged, the holder's unlock accepted", ["-witness", "3"], reach=["end", "downgraded", "collision"])
 
 _quick("C09", "C09_resync", "follower side of the resynchronisation handshake: the real ReplicationClient.InitSync against a scripted leader that answers ERR_NOT_FOUND to the follower's resume position, then the leader's position to the empty one, then the end marker of an empty transfer: the follower drops its stale hold, adopts the leader's position and consumes the transfer", ["-witness", "1"])
+
+_quick("C12", "C12_candidate", "the real ArbiterVoter.DoProposal over three members (own acceptor through DoSelfProposal, remote answers stubbed: accepted or lost); while it waits for B's or C's answer a foreign REPL_PROPOSAL numbered 0..2 above the candidate's is delivered to its own acceptor through the real remote handler: the accepted number never decreases (symbolic executor only: Request needs a connection natively)", ["-witness", "0"], reach=["end", "proposed", "foreign-accepted"], native=False)
